@@ -321,6 +321,73 @@ class _AugExpand(ast.NodeTransformer):
         return T().visit(node)
 
 
+class _ContinueToIf(ast.NodeTransformer):
+    """loop body  `if c: continue` + rest   ->   `if not c: rest`   (c without else branch; the
+    guard is the first such statement of the body and rest is not empty)."""
+
+    def _rewrite(self, body):
+        for i, st in enumerate(body):
+            if isinstance(st, ast.If) and not st.orelse and len(st.body) == 1 and \
+                    isinstance(st.body[0], ast.Continue) and i + 1 < len(body):
+                rest = body[i + 1:]
+                new_if = ast.If(test=ast.UnaryOp(op=ast.Not(), operand=st.test), body=rest,
+                                orelse=[])
+                return body[:i] + [ast.copy_location(new_if, st)]
+        return body
+
+    def visit_For(self, node):
+        self.generic_visit(node)
+        node.body = self._rewrite(node.body)
+        return node
+
+    def visit_While(self, node):
+        self.generic_visit(node)
+        node.body = self._rewrite(node.body)
+        return node
+
+
+class _KeysMembership(ast.NodeTransformer):
+    """`k in d.keys()` / `k not in d.keys()`  ->  `k in d` / `k not in d`."""
+
+    def visit_Compare(self, node):
+        self.generic_visit(node)
+        if len(node.ops) == 1 and isinstance(node.ops[0], (ast.In, ast.NotIn)):
+            c = node.comparators[0]
+            if isinstance(c, ast.Call) and isinstance(c.func, ast.Attribute) and \
+                    c.func.attr == 'keys' and not c.args and not c.keywords:
+                node.comparators = [c.func.value]
+        return node
+
+
+class _SwapIfExp(ast.NodeTransformer):
+    """a if c else b  ->  b if not c else a"""
+
+    def visit_IfExp(self, node):
+        self.generic_visit(node)
+        return ast.copy_location(ast.IfExp(test=ast.UnaryOp(op=ast.Not(), operand=node.test),
+                                           body=node.orelse, orelse=node.body), node)
+
+
+class _DropElseAfterReturn(ast.NodeTransformer):
+    """if c: ...return/raise  else: rest   ->   if c: ...return/raise ; rest   (last statement of
+    the if-body leaves the function; only where the `if` is the last statement of its block, so
+    that nothing else follows the moved statements)."""
+
+    def _block(self, stmts):
+        if stmts and isinstance(stmts[-1], ast.If):
+            st = stmts[-1]
+            if st.orelse and st.body and isinstance(st.body[-1], (ast.Return, ast.Raise)) and \
+                    not (len(st.orelse) == 1 and isinstance(st.orelse[0], ast.If)):
+                new_if = ast.copy_location(ast.If(test=st.test, body=st.body, orelse=[]), st)
+                return stmts[:-1] + [new_if] + st.orelse
+        return stmts
+
+    def visit_FunctionDef(self, node):
+        self.generic_visit(node)
+        node.body = self._block(node.body)
+        return node
+
+
 class _MergeIfs(ast.NodeTransformer):
     """if a:\n    if b: body   ->   if a and b: body          (no else branches)"""
 
@@ -399,6 +466,14 @@ def neutral_variants(text):
         out.append(('merge-nested-ifs', ast.unparse(t) + '\n'))
         t = ast.fix_missing_locations(_SwapAssigns().visit(ast.parse(text)))
         out.append(('swap-independent-assignments', ast.unparse(t) + '\n'))
+        t = ast.fix_missing_locations(_ContinueToIf().visit(ast.parse(text)))
+        out.append(('continue-to-nested-if', ast.unparse(t) + '\n'))
+        t = ast.fix_missing_locations(_SwapIfExp().visit(ast.parse(text)))
+        out.append(('swap-conditional-expression', ast.unparse(t) + '\n'))
+        t = ast.fix_missing_locations(_DropElseAfterReturn().visit(ast.parse(text)))
+        out.append(('drop-else-after-return', ast.unparse(t) + '\n'))
+        t = ast.fix_missing_locations(_KeysMembership().visit(ast.parse(text)))
+        out.append(('keys-membership', ast.unparse(t) + '\n'))
         t = ast.fix_missing_locations(_AugExpand().visit(ast.parse(text)))
         out.append(('expand-augmented-assignment', ast.unparse(t) + '\n'))
     except Exception as e:   # pragma: no cover
